@@ -3,8 +3,9 @@ from .. import common, gen, values, walker, storemodel
 from autobean_refactor import models
 
 CASES = {'quick': 3000, 'thorough': 60000}
+SMALL_BLOCKS = 4      # runner: every 4th case keeps its stores in 2..10-token blocks
 GATES = {
-    'quick': {'evaluations': 8000, 'assign_value': 3000, 'assign_raw_text': 1500, 'assign_indent': 150, 'token_classes_assigned': 12,
+    'quick': {'cases_in_small_blocks': 50, 'evaluations': 8000, 'assign_value': 3000, 'assign_raw_text': 1500, 'assign_indent': 150, 'token_classes_assigned': 12,
               'multiline_new_text': 300, 'assign_raw_text_respelling': 330},
     'thorough': {'evaluations': 250000, 'token_classes_assigned': 14},
 }
